@@ -531,7 +531,11 @@ def pad_nodes(S):
         if e.src[0] == "F" or e.dst[0] == "F":
             return False
         return fg.bodies[e.src[0]].owner == fg.bodies[e.dst[0]].owner
-    reach = fg.forward(seeds, edge_ok=lambda e: same_fam(e) and (e.kind in ("copy", "ref", "base2field", "field2whole", "bin", "un", "cast", "mutarg", "alias", "upvar", "index") or (e.kind == "call" and secmod.struct_edge(e))) and e.dst not in all_comp, local=True)
+    def pad_call(e):
+        # iterator folds over own keys (`keys.iter().fold(0, |acc, k| acc ^ k.0)`) still yield a pad
+        names = (e.info or {}).get("names") if isinstance(e.info, dict) else None
+        return bool(names) and names[-1].rsplit("::", 1)[-1] in ("fold", "reduce", "sum", "try_fold")
+    reach = fg.forward(seeds, edge_ok=lambda e: same_fam(e) and (e.kind in ("copy", "ref", "base2field", "field2whole", "bin", "un", "cast", "mutarg", "alias", "upvar", "index", "closret", "closarg") or (e.kind == "call" and (secmod.struct_edge(e) or pad_call(e)))) and e.dst not in all_comp, local=True)
     return set(reach.keys())
 
 
